@@ -201,6 +201,9 @@ func c17Run(w *W, idx int) {
 	c17Mismatch(w, r, la, lb)
 	c17Refill(w, r, la, lb, isS)
 	c17Padded(w, r)
+	if idx%10 == 7 {
+		c17Huge(w, r, isS)
+	}
 	w.Count("nil_slice_list_variables", int64(c17NilLists))
 	c17NilLists = 0
 }
@@ -680,4 +683,33 @@ func absI(v int64) int64 {
 		return -v
 	}
 	return v
+}
+
+// c17Huge: lists of thousands of elements (sizes around powers of two and primes, where a table is resized or an input
+// is split into blocks), disjoint or with exactly one shared element at the very end, near the end, in the middle or at the
+// start of either list.
+func c17Huge(w *W, r *rand.Rand, isS bool) {
+	sizes := []int{1000, 2049, 4095, 4096, 4097, 5001, 8191, 8193, 10007, 16385, 20011}
+	la, lb := sizes[r.Intn(len(sizes))], sizes[r.Intn(len(sizes))]
+	if r.Intn(3) == 0 {
+		lb = []int{1, 7, 120}[r.Intn(3)]
+	}
+	w.Inc("huge_list_cases")
+	w.Max("longest_list", int64(maxI(la, lb)))
+	pos := func(n int) int {
+		return []int{n - 1, n - 1, maxI(n-2, 0), maxI(n-3, 0), maxI(n-1-r.Intn(1+n/1000+3), 0), n / 2, 0, r.Intn(n)}[r.Intn(8)]
+	}
+	for round := 0; round < 3; round++ {
+		order := r.Intn(3)
+		a := mkList(r, la, 1000, isS, order, false)
+		b := mkList(r, lb, 1000+int64(3*la)+5000, isS, (order+r.Intn(3))%3, false)
+		if round > 0 {
+			rel := []int64{-7, 99999999}[r.Intn(2)]
+			a.set(pos(la), rel)
+			b.set(pos(lb), rel)
+			c17Overlap(w, r, a, b, "huge-one-shared")
+		} else {
+			c17Overlap(w, r, a, b, "huge-disjoint")
+		}
+	}
 }
